@@ -85,15 +85,23 @@ def _self_fields(expr_src_list, ci) -> Set[str]:
 
 
 def _hash_components(fn) -> Optional[Set[str]]:
-    rets = returns_of(fn.node.body)
-    if len(rets) != 1 or rets[0].value is None:
+    """Union over all return statements of the hashed components (locals inlined)."""
+    from .encode_model import inline_locals
+    rets = [r for r in returns_of(fn.node.body) if r.value is not None]
+    if not rets:
         return None
-    v = rets[0].value
-    if isinstance(v, ast.Call) and isinstance(v.func, ast.Name) and v.func.id == "hash" and len(v.args) == 1:
-        v = v.args[0]
-    if isinstance(v, ast.Tuple):
-        return {norm_src(e) for e in v.elts}
-    return {norm_src(v)}
+    out: Set[str] = set()
+    for r in rets:
+        v = inline_locals(fn.node, r.value)
+        if isinstance(v, ast.Call) and isinstance(v.func, ast.Name) and v.func.id == "hash" and len(v.args) == 1:
+            v = v.args[0]
+        else:
+            return None
+        if isinstance(v, ast.Tuple):
+            out |= {norm_src(e) for e in v.elts}
+        else:
+            out.add(norm_src(v))
+    return out
 
 
 def r082(an, rep):
@@ -132,7 +140,7 @@ def r082(an, rep):
             comps = _hash_components(hm)
             if comps is None:
                 raise AnalysisError(f"{hm.qual}: cannot recognise the hash idiom (expected `return hash((k1, k2, ...))`)")
-            extra = sorted(c for c in comps if c not in eq_keys)
+            extra = sorted(c for c in comps if c not in eq_keys and not (c.isidentifier() is False and c.replace(" ", "") in {k.replace(" ", "") for k in eq_keys}))
             rep.add("R08.2", f"{ci.qual}::eq key = hash key", not extra, loc(ci.module, hm.node),
                     f"__hash__ hashes {extra}, which __eq__ does not compare through the same key (eq keys {sorted(eq_keys)}): equal values may hash differently" if extra
                     else f"__hash__ components {sorted(comps)} are a subset of the __eq__ keys {sorted(eq_keys)}")
